@@ -37,7 +37,7 @@ type PartySpec struct {
 }
 
 type StepSpec struct {
-	Op      string `json:"op"`                 // rinit, rresp, rdata, tun, kick, restart, cookie, setkey, age, ghost, rinitkey
+	Op      string `json:"op"`                 // rinit, rresp, rdata, tun, kick, restart, cookie, setkey, age, ghost, rinitkey, rinitload
 	Party   int    `json:"party"`              // acting ref party (rinit, rresp, rdata) or addressed peer (tun, kick)
 	RespKey string `json:"resp_key,omitempty"` // rinit: "" = the device's key, "other" = another key S', "old" = the device's previous key
 	MacKey  string `json:"mac_key,omitempty"`  // rinit: "" = the device's key, "other" = the other key, "old" = the device's previous key
@@ -147,6 +147,11 @@ func (k *parker) logger() *device.Logger {
 
 type runner struct {
 	park     *parker
+	lastMac1 [16]byte       // MAC1 of the last initiation a ref party sent
+	lastFrom netip.AddrPort // and where it came from
+	devCk    map[string]int // cookies the device handed out, by content
+	prevTs   map[int][]byte // last timestamp the device sent to a peer
+
 	w        *cosim.World
 	parties  []*party
 	sessions []*sess // creation order
@@ -183,7 +188,7 @@ func (r *runner) configured() []*party {
 }
 
 func newRunner(sc Scenario, rng *rand.Rand) (*runner, error) {
-	r := &runner{rng: rng, tunPkts: map[string]bool{}, refEph: 200, devEph: 600, tsID: 1000000}
+	r := &runner{rng: rng, tunPkts: map[string]bool{}, refEph: 200, devEph: 600, tsID: 1000000, devCk: map[string]int{}, prevTs: map[int][]byte{}}
 	pskN := 0
 	newPsk := func() (ref.Key, int) {
 		pskN++
@@ -310,17 +315,36 @@ func (r *runner) describe(s sim.Sent, so *StepObs) []uint64 {
 		switch {
 		case tw == ref.TypeInitiation && len(d) == ref.InitiationSize:
 			opener := 0
+			tsok := uint64(0)
 			for _, p := range r.parties {
 				if rs, err := ref.ConsumeInitiation(d, p.rp.Priv); err == nil && rs.InitiatorStatic == r.w.DevPub {
 					opener = p.kid
+					// the timestamp is a TAI64N label (big-endian 2^62+10+unix seconds, nanoseconds) of the time of
+					// sending, and byte-wise not below the previous one sent to this peer (equal is C06's business)
+					secs := int64(binary.BigEndian.Uint64(rs.Timestamp[:8]) - 0x400000000000000a)
+					nanos := binary.BigEndian.Uint32(rs.Timestamp[8:])
+					now := time.Now().Unix()
+					if secs >= now-30 && secs <= now+30 && nanos < 1000000000 && bytes.Compare(rs.Timestamp[:], r.prevTs[p.kid]) >= 0 {
+						tsok = 1
+					}
+					r.prevTs[p.kid] = append([]byte{}, rs.Timestamp[:]...)
 					break
 				}
 			}
 			so.raws = append(so.raws, Raw{Bytes: d, Fields: []uint64{uint64(tw), uint64(binary.LittleEndian.Uint32(d[4:8])), 0, r.mac2Class(d)}, Eph: d[8:40]})
-			return []uint64{1, to, uint64(len(d)), uint64(binary.LittleEndian.Uint32(d[4:8])), uint64(r.mac1Owner(d)), r.mac2Class(d), uint64(opener)}
+			return []uint64{1, to, uint64(len(d)), uint64(binary.LittleEndian.Uint32(d[4:8])), uint64(r.mac1Owner(d)), r.mac2Class(d), uint64(opener), tsok}
 		case tw == ref.TypeResponse && len(d) == ref.ResponseSize:
 			so.raws = append(so.raws, Raw{Bytes: d, Fields: []uint64{uint64(tw), uint64(binary.LittleEndian.Uint32(d[4:8])), uint64(binary.LittleEndian.Uint32(d[8:12])), r.mac2Class(d)}, Eph: d[12:44]})
 			return []uint64{2, to, uint64(len(d)), uint64(binary.LittleEndian.Uint32(d[4:8])), uint64(binary.LittleEndian.Uint32(d[8:12])), uint64(r.mac1Owner(d)), r.mac2Class(d)}
+		case tw == ref.TypeCookie && len(d) == ref.CookieSize && s.To == r.lastFrom:
+			openable := uint64(0)
+			if _, ck, err := ref.OpenCookieReply(d, r.w.DevPub, r.lastMac1); err == nil && len(ck) == 16 {
+				openable = 1
+				if _, ok := r.devCk[string(ck)]; !ok {
+					r.devCk[string(ck)] = len(r.devCk) + 1
+				}
+			}
+			return []uint64{3, uint64(len(d)), uint64(binary.LittleEndian.Uint32(d[4:8])), openable}
 		case tw == ref.TypeTransport && len(d) >= 32:
 			opener := 0
 			ka := false
@@ -452,7 +476,7 @@ func (r *runner) step(si int, sp StepSpec) {
 	so := StepObs{Si: si}
 	r.shiftTimes()
 	switch sp.Op {
-	case "rinit", "rinitkey":
+	case "rinit", "rinitkey", "rinitload":
 		r.xid++
 		xid := r.xid
 		switch sp.Ts {
@@ -492,9 +516,40 @@ func (r *runner) step(si int, sp StepSpec) {
 		if mKid != rKid {
 			msg = ref.AppendMacs(append([]byte{}, msg[:ref.InitiationSize-32]...), mPub, nil)
 		}
+		copy(r.lastMac1[:], msg[ref.InitiationSize-32:ref.InitiationSize-16])
+		r.lastFrom = p.rp.Addr
 		var out cosim.Out
 		newKid := 0
-		if sp.Op == "rinit" {
+		ckid := 0
+		if sp.Op == "rinitload" {
+			// the device is under load for this step: first without MAC2 (expect a cookie reply that ref can
+			// open), then the same initiation with MAC2 under the cookie received
+			r.w.Dev.VerifForceUnderLoad(30 * time.Second)
+			defer r.w.Dev.VerifForceUnderLoad(0)
+			out1 := r.w.Inject(p.rp.Addr, msg)
+			so1 := StepObs{Si: si}
+			var cookie []byte
+			for _, s := range out1.Sent {
+				if len(s.Data) == ref.CookieSize && s.Data[0] == ref.TypeCookie {
+					if _, ck, err := ref.OpenCookieReply(s.Data, r.w.DevPub, r.lastMac1); err == nil {
+						cookie = ck
+					}
+				}
+			}
+			r.observe(out1, &so1, nil)
+			if cookie != nil {
+				ckid = r.devCk[string(cookie)]
+			}
+			so1.Event = fmt.Sprintf("rinitload %d %d %d %d %d %d %d %d 0 0 %d 0", xid, p.kid, rKid, mKid, e, idx, p.tsCtr, p.refPskID, ckid)
+			r.c.Obs = append(r.c.Obs, so1)
+			if cookie == nil {
+				r.c.Handshakes++
+				r.c.Refused++
+				return
+			}
+			msg = ref.WithCookie(msg, mPub, cookie)
+			out = r.w.Inject(p.rp.Addr, msg)
+		} else if sp.Op == "rinit" {
 			out = r.w.Inject(p.rp.Addr, msg)
 		} else {
 			// private_key= issued while the handshake worker sits between ConsumeMessageInitiation and
@@ -560,6 +615,9 @@ func (r *runner) step(si int, sp StepSpec) {
 		}
 		r.c.Handshakes++
 		so.Event = fmt.Sprintf("rinit %d %d %d %d %d %d %d %d %d %d", xid, p.kid, rKid, mKid, e, idx, p.tsCtr, p.refPskID, er, ir)
+		if sp.Op == "rinitload" {
+			so.Event = fmt.Sprintf("rinitload %d %d %d %d %d %d %d %d %d %d %d 1", xid, p.kid, rKid, mKid, e, idx, p.tsCtr, p.refPskID, er, ir, ckid)
+		}
 		if sp.Op == "rinitkey" {
 			so.Event = fmt.Sprintf("rinitkey %d %d %d %d %d %d %d %d %d %d %d", xid, p.kid, rKid, mKid, e, idx, p.tsCtr, p.refPskID, er, ir, newKid)
 		}
@@ -806,11 +864,11 @@ func anyParty(r *rand.Rand, k int) PartySpec {
 func st(op string, party int) StepSpec { return StepSpec{Op: op, Party: party, Of: party} }
 
 func genScenario(r *rand.Rand, k int) Scenario {
-	tmpl := k % 22
-	main := anyParty(r, k/22+k)
+	tmpl := k % 23
+	main := anyParty(r, k/23+k)
 	pskParty := func() PartySpec { // a configured party whose device-side psk is NOT zero, or a mismatching one
 		l := []PartySpec{{"ok", "rand"}, {"pskmis", "rand"}, {"pskmis", "refzero"}, {"ok", "rand"}, {"pskmis", "zero"}, {"ok", "zero"}}
-		return l[(k/22)%len(l)]
+		return l[(k/23)%len(l)]
 	}
 	forged := []string{"garbage", "wrongkey", "wrongad", "oldad"}
 	switch tmpl {
@@ -885,12 +943,12 @@ func genScenario(r *rand.Rand, k int) Scenario {
 	case 12: // an unauthentic cookie reply before a retransmitted initiation and before a response
 		p := pick(r, okKinds)
 		return Scenario{Parties: []PartySpec{p}, Gen: "forged-cookie-initiator",
-			Steps: []StepSpec{st("kick", 0), {Op: "cookie", Party: 0, Of: 0, Kind: forged[(k/22)%4]}, st("kick", 0),
+			Steps: []StepSpec{st("kick", 0), {Op: "cookie", Party: 0, Of: 0, Kind: forged[(k/23)%4]}, st("kick", 0),
 				{Op: "cookie", Party: 0, Of: 0, Kind: forged[r.Intn(4)]}, st("rresp", 0), st("rdata", 0), st("rinit", 0), st("kick", 0)}}
 	case 13: // the same with the device as responder (receiver = index of its response = keypair index)
 		p := pick(r, okKinds)
 		return Scenario{Parties: []PartySpec{p, pick(r, outKinds)}, Gen: "forged-cookie-responder",
-			Steps: []StepSpec{st("rinit", 0), {Op: "cookie", Party: 1, Of: 0, Kind: forged[(k/22)%4]}, st("rinit", 0),
+			Steps: []StepSpec{st("rinit", 0), {Op: "cookie", Party: 1, Of: 0, Kind: forged[(k/23)%4]}, st("rinit", 0),
 				{Op: "cookie", Party: 0, Of: 0, Kind: forged[r.Intn(4)]}, st("kick", 0), st("rdata", 0), st("rinit", 0)}}
 	case 14: // an authentic cookie reply: MAC2 is then the MAC under that cookie, also across a restart
 		p := pick(r, okKinds)
@@ -907,7 +965,7 @@ func genScenario(r *rand.Rand, k int) Scenario {
 				st("tun", 0), st("setkey", 0), st("kick", 0), st("rresp", 0)}}
 	case 17: // peers configured first, the private key in a later set operation
 		steps := []StepSpec{st("setkey", 0), st("rinit", 0), st("rdata", 0), st("tun", 0), st("kick", 1), st("rresp", 1), st("rdata", 1)}
-		if (k/22)%2 == 1 {
+		if (k/23)%2 == 1 {
 			steps = []StepSpec{st("setkey", 0), st("tun", 0), st("rresp", 0), st("rdata", 0), st("rinit", 1), st("rdata", 1), st("tun", 1)}
 		}
 		return Scenario{Parties: []PartySpec{pskParty(), pick(r, okKinds)}, Gen: "peers-before-key", NoPriv: true, Steps: steps}
@@ -915,13 +973,13 @@ func genScenario(r *rand.Rand, k int) Scenario {
 		p := pick(r, okKinds)
 		steps := []StepSpec{st("kick", 0), {Op: "cookie", Party: 0, Of: 0, Kind: "authentic"}, {Op: "age", Kind: "short"}, st("kick", 0),
 			st("age", 0), st("kick", 0), st("rinit", 0), {Op: "cookie", Party: 0, Of: 0, Kind: "authentic"}, st("rinit", 0), st("age", 0), st("rinit", 0), st("kick", 0)}
-		if (k/22)%2 == 1 { // the cookie answers a response, expires, then the device initiates
+		if (k/23)%2 == 1 { // the cookie answers a response, expires, then the device initiates
 			steps = []StepSpec{st("rinit", 0), {Op: "cookie", Party: 0, Of: 0, Kind: "authentic"}, st("rinit", 0), st("age", 0), st("kick", 0),
 				st("rinit", 0), st("restart", 0), st("kick", 0), st("rresp", 0), st("rdata", 0)}
 		}
 		return Scenario{Parties: []PartySpec{p}, Gen: "cookie-expiry", Steps: steps}
 	case 19: // update_only for an unknown key configures nobody, also after a restart
-		return Scenario{Parties: []PartySpec{pick(r, okKinds), outKinds[(k/22)%2]}, Gen: "update-only-unknown-key",
+		return Scenario{Parties: []PartySpec{pick(r, okKinds), outKinds[(k/23)%2]}, Gen: "update-only-unknown-key",
 			Steps: []StepSpec{st("ghost", 1), st("rinit", 1), st("restart", 0), st("rinit", 1), st("rdata", 1), st("rinit", 0), st("rdata", 0),
 				st("ghost", 1), st("rinit", 1), st("tun", 0)}}
 	case 20: // the private key changes while an initiation is between consumption and response
@@ -933,10 +991,14 @@ func genScenario(r *rand.Rand, k int) Scenario {
 			first.RespKey = "other"
 		}
 		steps := []StepSpec{st("rinit", 0), st("rdata", 0), first, st("rdata", 0), st("tun", 0), st("rinit", 0), st("rdata", 0), st("tun", 0)}
-		if (k/22)%2 == 1 {
+		if (k/23)%2 == 1 {
 			steps = []StepSpec{first, st("rdata", 0), st("rinit", 0), st("rdata", 0), st("kick", 0), st("rresp", 0), {Op: "rinitkey", Party: 0, Of: 0}, st("rinit", 0), st("rdata", 0)}
 		}
 		return Scenario{Parties: []PartySpec{pskParty(), outKinds[r.Intn(2)]}, Gen: "key-change-in-flight", Steps: steps}
+	case 21: // the device is under load: cookie reply that the initiator can open, retry with MAC2, completion
+		return Scenario{Parties: []PartySpec{main, pick(r, okKinds)}, Gen: "device-under-load",
+			Steps: []StepSpec{st("rinitload", 0), st("rdata", 0), st("tun", 0), st("rinitload", 1), st("rdata", 1),
+				{Op: "rinitload", Party: 1, Of: 1, MacKey: "other"}, {Op: "rinitload", Party: 0, Of: 0, Ts: "same"}, st("rinitload", 0), st("rdata", 0)}}
 	default: // several peers, random interleaving
 		n := 2 + r.Intn(3)
 		var ps []PartySpec
@@ -985,7 +1047,7 @@ func genScenario(r *rand.Rand, k int) Scenario {
 			case x < 95:
 				s.Op = "setkey"
 			case x < 96:
-				s.Op = "rinitkey"
+				s.Op = []string{"rinitkey", "rinitload"}[r.Intn(2)]
 			case x < 97:
 				s.Op = "age"
 				if r.Intn(3) == 0 {
@@ -1104,7 +1166,7 @@ func writeShard(path string, cases []*Case) error {
 
 func main() {
 	seed := flag.Int64("seed", 1, "PRNG seed")
-	n := flag.Int("n", 88, "number of scenarios")
+	n := flag.Int("n", 92, "number of scenarios")
 	shards := flag.Int("shards", 8, "case files")
 	out := flag.String("out", "out/C03", "output directory")
 	replayIn := flag.String("replay", "", "JSON file with scenarios (parties + steps) to run")
